@@ -182,6 +182,10 @@ def choose_expected(test, node, data):
     py:otherwise) deleted: "the first matching branch alone is rendered".  Applies when every
     child is a branch (first directive when/otherwise) or text."""
     if node[0] == 'el':
+        # directives applied after py:choose on the same element may bind names the tests see
+        # (py:with) or discard the branches (py:content): leave those to the other oracles
+        if any(d[0] not in ('choose', 'attrs', 'strip') for d in node[3]):
+            raise Skip()
         kids = node[4]
     else:
         kids = node[3]
